@@ -686,8 +686,59 @@ def run_default(world, cfg, processes):
     return obs
 
 
-def run_real(world, cfg, processes):
-    """Free-running under the real multiprocessing (fork)."""
+def run_real(world, cfg, processes, timeout=90):
+    """Free-running under the real multiprocessing (fork), in a child process
+    group of its own so that a run that never ends (a real deadlock between
+    parent and workers) can be killed and reported instead of hanging the
+    check."""
+    import select
+    import signal
+    r, w = os.pipe()
+    pid = os.fork()
+    if pid == 0:
+        try:
+            os.close(r)
+            os.setsid()
+            obs = _run_real_inner(world, cfg, processes)
+            with os.fdopen(w, "wb") as f:
+                f.write(pickle.dumps(obs))
+        finally:
+            os._exit(0)
+    os.close(w)
+    chunks = []
+    deadline = __import__("time").time() + timeout
+    hung = False
+    while True:
+        left = deadline - __import__("time").time()
+        if left <= 0:
+            hung = True
+            break
+        ready, _, _ = select.select([r], [], [], left)
+        if not ready:
+            hung = True
+            break
+        data = os.read(r, 1 << 16)
+        if not data:
+            break
+        chunks.append(data)
+    os.close(r)
+    if hung:
+        try:
+            os.killpg(pid, signal.SIGKILL)
+        except ProcessLookupError:
+            pass
+    os.waitpid(pid, 0)
+    if hung:
+        return dict(pairs=[], naming=[], crashed=0,
+                    error=("hang", "no result within %d s" % timeout))
+    try:
+        return pickle.loads(b"".join(chunks))
+    except Exception as exc:
+        return dict(pairs=[], naming=[], crashed=0,
+                    error=("child-died", repr(exc)[:100]))
+
+
+def _run_real_inner(world, cfg, processes):
     output, outdir = (None, None)
     if cfg["output"] == "fileset":
         output, outdir = world.output()
@@ -737,6 +788,8 @@ def run_conformance(res, tier):
                           if bad[0] != "output-name-collision" else bad[0],
                           dict(kind="real", cfg=cfg, processes=processes,
                                fault=fault), bad[1], bad[2])
+            if obs.get("error", ("",))[0] == "hang":
+                break           # every further run would wait for its timeout
     res.sample(dict(kind="real multiprocessing", configurations=len(seen)))
     return res
 
